@@ -245,14 +245,22 @@ class LocalModelDirectoryDatabaseTransaction(ModelTransaction):
         # matching this hash only
         h = self.key.dataset_hash
         h_dir = datasets_path / DIRECTORY_INDEX / str(h)
+        curdi = None
         if h_dir.is_dir():
-            hpath = next(h_dir.iterdir())
-            # NOTE: This variable holds a string similar to "run1.csv"
-            matching_model_filename = hpath.name
-            data_path = datasets_path / matching_model_filename
-            dipath = data_path.with_suffix('.datainfo')
-            # TODO: Maybe catch FileNotFoundError and similar here (pass)
-            curdi = DataInfo.read_json(dipath)
+            for hpath in sorted(h_dir.iterdir()):
+                # NOTE: This variable holds a string similar to "run1.csv"
+                matching_model_filename = hpath.name
+                data_path = datasets_path / matching_model_filename
+                dipath = data_path.with_suffix('.datainfo')
+                # NOTE: The datainfo is written last. If it is missing or
+                # incomplete the storing of this dataset was interrupted and
+                # the entry is ignored.
+                try:
+                    curdi = DataInfo.read_json(dipath)
+                except (FileNotFoundError, json.JSONDecodeError):
+                    continue
+                break
+        if curdi is not None:
             # NOTE: Paths are not compared here
             if curdi == model.datainfo:
                 datainfo = model.datainfo.replace(path=curdi.path)
